@@ -63,6 +63,7 @@ type WorkerSummary struct {
 	Faults     map[string]int `json:"faults"`
 	WallS      float64        `json:"wall_s"`
 	Samples    []interface{}  `json:"samples"`
+	Final      bool           `json:"final"`
 }
 
 func runSeed(seed uint64, i int) uint64 {
@@ -121,6 +122,24 @@ func TestWorker(t *testing.T) {
 	sum := &WorkerSummary{Probes: map[string]int{}, Faults: map[string]int{}}
 	sigs := map[string]bool{}
 	start := time.Now()
+	// statistics are written as deltas every few hundred runs, so that a worker
+	// death (which C02 and C07 provoke on purpose) loses little
+	flushEvery := 400
+	if cfg.Prop == "C07" || cfg.Prop == "C02" {
+		flushEvery = 10
+	}
+	flush := func(final bool) {
+		for s := range sigs {
+			sum.Sigs = append(sum.Sigs, s)
+		}
+		sort.Strings(sum.Sigs)
+		sum.Nontrivial = len(sum.Sigs)
+		sum.WallS = time.Since(start).Seconds()
+		sum.Final = final
+		emit(&RunResult{Type: "summary", Summary: sum})
+		sum = &WorkerSummary{Probes: map[string]int{}, Faults: map[string]int{}}
+		sigs = map[string]bool{}
+	}
 	for k := 0; k < cfg.Count; k++ {
 		i := cfg.From + k*cfg.Stride
 		if cfg.WallS > 0 && time.Since(start).Seconds() > cfg.WallS {
@@ -129,7 +148,7 @@ func TestWorker(t *testing.T) {
 		emit(&RunResult{Type: "start", I: i})
 		rs := runSeed(cfg.Seed, i)
 		verbose := cfg.Verbose || k < cfg.Samples
-		res, st := runOne(t, &cfg, rs, verbose)
+		res, st := runOne(t, &cfg, rs, verbose, i)
 		res.I, res.RunSeed = i, rs
 		progress.Add(1)
 		sum.Runs++
@@ -167,14 +186,11 @@ func TestWorker(t *testing.T) {
 			}
 			emit(res)
 		}
+		if sum.Runs >= flushEvery {
+			flush(false)
+		}
 	}
-	for s := range sigs {
-		sum.Sigs = append(sum.Sigs, s)
-	}
-	sort.Strings(sum.Sigs)
-	sum.Nontrivial = len(sum.Sigs)
-	sum.WallS = time.Since(start).Seconds()
-	emit(&RunResult{Type: "summary", Summary: sum})
+	flush(true)
 	out.Close()
 }
 
@@ -187,7 +203,7 @@ type runStats struct {
 	nontrivial bool
 }
 
-func runOne(t *testing.T, cfg *WorkerCfg, rs uint64, verbose bool) (res *RunResult, st *runStats) {
+func runOne(t *testing.T, cfg *WorkerCfg, rs uint64, verbose bool, runIndex int) (res *RunResult, st *runStats) {
 	res = &RunResult{Type: "run"}
 	defer func() {
 		if p := recover(); p != nil {
@@ -214,6 +230,7 @@ func runOne(t *testing.T, cfg *WorkerCfg, rs uint64, verbose bool) (res *RunResu
 		}
 		s := NewSim(ch)
 		s.Verbose = verbose
+		s.RunIndex = runIndex
 		if cfg.MaxSteps > 0 {
 			s.MaxSteps = cfg.MaxSteps
 		}
